@@ -112,6 +112,18 @@ func vStr(maxLen int) string {
 	return string(b)
 }
 
+// vStrA: ASCII bytes (0x00-0x7f) of length <= maxLen.
+func vStrA(maxLen int) string {
+	n := vChoice(maxLen + 1)
+	b := make([]byte, n)
+	for i := range b {
+		c := vByte()
+		vAssume(c < 0x80)
+		b[i] = c
+	}
+	return string(b)
+}
+
 // vStrASCII: printable ASCII without quote and backslash (safe through every codec).
 func vStrASCII(maxLen int) string {
 	n := vChoice(maxLen + 1)
